@@ -47,6 +47,7 @@ fn dispatch(op: &str, a: &[&str]) -> Option<String> {
         "twnew" => twnew(a),
         "twfind" => twfind(a),
         "prestate" => crate::ops2::prestate(a),
+        "ppreal" => crate::ops2::ppreal(a),
         _ => None,
     }
 }
